@@ -7,6 +7,9 @@
 #include <verif/os_stubs.h>
 #include <verif/lfht_pre.h>
 #include <urcu/rculfhash.h>
+#include <stdio.h>
+/* dbg_printf() expands to `if (0) printf(...)`: the dead variadic call crashes goto-instrument's dfcc inliner */
+#define printf(...) (0)
 struct cds_lfht_node *lf_load_next(struct cds_lfht_node **addr);
 struct cds_lfht_node **lf_canon_addr(struct cds_lfht_node **addr);
 #define LF_IS_NODEPTR(addr) __builtin_types_compatible_p(__typeof__(*(addr)), struct cds_lfht_node *)
@@ -43,6 +46,7 @@ unsigned char *G_fl;			/* flags of the node at position k (= tag bits of its nex
 unsigned long G_s;			/* start position of the traversal */
 unsigned long G_b;			/* chain position of the bucket node returned by bucket_at */
 unsigned long G_w;			/* arbitrary witness position */
+unsigned long G_w2;			/* second position for transitive-sortedness instances (e.g. the victim of a del) */
 unsigned long G_R, G_K;			/* requested reverse hash / key */
 struct cds_lfht_node *G_x;		/* the node being added / replaced in (not in the pool) */
 
